@@ -91,6 +91,7 @@ impl<N> Dag<N, Edge, FnIdInner> {
     pub open spec fn wf(&self) -> bool {
         &&& self.weights().len() == self.n()
         &&& self.n() <= usize::MAX
+        &&& self.edges().len() <= usize::MAX
         &&& forall|e: int| 0 <= e < self.edges().len() ==> {
                 &&& 0 <= #[trigger] self.edges()[e].src < self.n()
                 &&& 0 <= self.edges()[e].dst < self.n()
@@ -274,3 +275,38 @@ impl<N> Index<NodeIndex<FnIdInner>> for Dag<N, Edge, FnIdInner> {
 impl<N> vstd::std_specs::core::IndexSpecImpl<NodeIndex<FnIdInner>> for Dag<N, Edge, FnIdInner> {
     open spec fn index_req(&self, i: &NodeIndex<FnIdInner>) -> bool { i.0.0 < self.n() }
 }
+
+// ---- petgraph Graph access through daggy::Dag::graph() ---------------------------------------------
+impl<N> Dag<N, Edge, FnIdInner> {
+    /// `Dag::graph()`: the inner petgraph graph; it has the same nodes and edges (modelled as the Dag itself)
+    #[verifier::external_body]
+    pub fn graph(&self) -> (r: &Dag<N, Edge, FnIdInner>)
+        ensures r == self,
+    { unimplemented!() }
+
+    /// `Graph::node_indices()`: NodeIndex 0..n in order
+    #[verifier::external_body]
+    pub fn node_indices(&self) -> (r: NodeIdxIter)
+        ensures r.pos() == 0, r.len() == self.n(),
+    { unimplemented!() }
+}
+
+#[verifier::external_body]
+pub struct NodeIdxIter { _p: usize }
+
+impl NodeIdxIter {
+    pub uninterp spec fn pos(&self) -> int;
+    pub uninterp spec fn len(&self) -> int;
+
+    #[verifier::external_body]
+    pub fn next(&mut self) -> (r: Option<NodeIndex<FnIdInner>>)
+        ensures
+            final(self).len() == old(self).len(),
+            old(self).pos() >= old(self).len() ==> r.is_none() && final(self).pos() == old(self).pos(),
+            old(self).pos() < old(self).len() ==> r.is_some() && r.unwrap().0.0 == old(self).pos() && final(self).pos() == old(self).pos() + 1,
+    { unimplemented!() }
+}
+
+// ASSUMED (std): `<Vec<T> as AsRef<[T]>>::as_ref` is the slice of the same elements
+pub assume_specification<T, A: std::alloc::Allocator> [<std::vec::Vec<T, A> as std::convert::AsRef<[T]>>::as_ref] (v: &std::vec::Vec<T, A>) -> (r: &[T])
+    ensures r@ == v@;
